@@ -324,6 +324,28 @@ func check(args []string) int {
 		}
 	}
 	vc.SolveAll(obls, cfg)
+	// second chance for obligations without a definite answer: fewer solvers at a time, four times the budget
+	// (a proof that needs 9 s of one core times out when 18 solver processes share 16 cores)
+	var retry []*vc.Obligation
+	for _, o := range obls {
+		if !o.Static && o.Kind != "vacuity" && !o.Passed() && (o.Result == "unknown" || o.Result == "timeout") {
+			retry = append(retry, o)
+		}
+	}
+	if len(retry) > 0 && len(retry) <= 30 {
+		cfg2 := *cfg
+		cfg2.Timeout = cfg.Timeout * 4
+		cfg2.Parallel = 5
+		cfg2.FullOnly = true
+		first := map[*vc.Obligation]int64{}
+		for _, o := range retry {
+			first[o] = o.Ms
+		}
+		vc.SolveAll(retry, &cfg2)
+		for _, o := range retry {
+			o.Ms += first[o]
+		}
+	}
 
 	findings := loadFindings()
 	isKnown := func(p, obl string) *finding {
